@@ -57,6 +57,7 @@ CONSTANTS NPath,           \* paths are 1..NPath
           Depth,           \* length of the enumerated histories
           EmitMod,         \* emit one history in EmitMod (1 = all)
           Modes,           \* subset of {"path", "pathlib", "fresh", "kept"} used in this configuration
+          Ops,             \* event families enumerated: subset of {"fs", "stream"}
           Design           \* "code" or a broken design (see Broken below)
 
 VARIABLES fs,      \* Path -> File
@@ -64,8 +65,9 @@ VARIABLES fs,      \* Path -> File
           loaded,  \* content id of the object returned by the last Load (0 = none)
           held,    \* set of paths on which a kept handle is open
           kinds,   \* the kind assignment of this behaviour
+          strm,    \* ONE open binary stream used for pickle: [items, pos] (see "pickle streams" below)
           hist
-vars == <<fs, mem, loaded, held, kinds, hist>>
+vars == <<fs, mem, loaded, held, kinds, strm, hist>>
 
 Paths == 1..NPath
 Objs == 1..NObj
@@ -77,6 +79,7 @@ Broken == {"no_remove",        \* overwrite does not remove / truncate the old f
            "guard_str_only",   \* ... refuses only a str, not a pathlib.Path naming the same file
            "refusal_cleans_up",\* a refused save deletes the existing file
            "pkl_refuses",      \* the pkl writer refuses an existing path like hdf5 does
+           "load_rewinds",     \* the pkl reader rewinds a passed file object before it unpickles
            "writer_marks"}     \* the pkl version stamp is put into the object's own dict
 
 (* top-level keys of the dictionary form, as written by <class>.to_dict() *)
@@ -113,9 +116,34 @@ IsPath(mode) == mode \in {"path", "pathlib"}     \* the target is a file NAME (s
 Ev(op, o, src, p, fmt, ow, mode) ==
   [op |-> op, o |-> o, src |-> src, p |-> p, fmt |-> fmt, ow |-> ow, mode |-> mode]
 
-Enabled(f, ld, hd, e) ==
-  /\ e.p \in Paths
-  /\ CASE e.op = "save" ->
+(* ------------------------------ pickle streams -------------------------- *)
+(* A file object is a STREAM with one position.  pickle.dump writes one     *)
+(* pickle at the position, pickle.load reads one pickle from the position   *)
+(* and leaves the position behind it: several objects saved one after the   *)
+(* other through ONE handle are read back one after the other, in order.    *)
+(* strm.items is the sequence of content ids in the stream, strm.pos the    *)
+(* number of items before the position.  "ssave" (save(handle, 'pkl'))      *)
+(* appends at the end, or with overwrite truncates first; "sseek" is the    *)
+(* caller's handle.seek(0); "sload" (load_*(handle, 'pkl')) returns the item*)
+(* at the position.  Writing into the middle of a stream is not specified   *)
+(* (not enabled).                                                           *)
+IsStream(op) == op \in {"ssave", "sload", "sseek"}
+StreamAfter(st, e) ==
+  CASE e.op = "ssave" -> IF e.ow = 1 /\ Design # "no_remove" THEN [items |-> <<e.o>>, pos |-> 1]
+                         ELSE [items |-> Append(st.items, e.o), pos |-> Len(st.items) + 1]
+    [] e.op = "sseek" -> [st EXCEPT !.pos = 0]
+    [] e.op = "sload" -> IF Design = "load_rewinds" THEN [st EXCEPT !.pos = 1] ELSE [st EXCEPT !.pos = @ + 1]
+    [] OTHER -> st
+StreamRead(st) == IF Design = "load_rewinds" THEN st.items[1] ELSE st.items[st.pos + 1]
+
+Enabled(f, ld, hd, st, e) ==
+  /\ (IsStream(e.op) \/ e.p \in Paths)
+  /\ CASE e.op = "ssave" ->
+            /\ e.o \in Objs /\ e.ow \in {0, 1} /\ e.src \in {0, 1} /\ (e.src = 1 => ld = e.o)
+            /\ (e.ow = 1 \/ st.pos = Len(st.items))
+       [] e.op = "sload" -> st.pos < Len(st.items)
+       [] e.op = "sseek" -> st.items # <<>>
+       [] e.op = "save" ->
             /\ e.o \in Objs /\ e.fmt \in Fmts /\ e.ow \in {0, 1} /\ e.mode \in Modes /\ e.src \in {0, 1}
             /\ (e.src = 1 => ld = e.o)
             /\ (e.mode = "kept" \/ e.p \notin hd)
@@ -157,34 +185,53 @@ Init == /\ kinds \in KindAssignments
         /\ fs = [p \in Paths |-> Absent]
         /\ mem = [o \in Objs |-> Cells(kinds, o)]
         /\ loaded = 0 /\ held = {} /\ hist = <<>>
+        /\ strm = [items |-> <<>>, pos |-> 0]
 
-Rec(e, out, res, f, ld) == [ev |-> e, out |-> out, res |-> res, post |-> View(kinds, f), loaded |-> ld]
+Rec(e, out, res, f, ld, st) == [ev |-> e, out |-> out, res |-> res, post |-> View(kinds, f), loaded |-> ld,
+                                spost |-> st]
 
 Step(e) ==
-  /\ Enabled(fs, loaded, held, e)
+  /\ Enabled(fs, loaded, held, strm, e)
   /\ UNCHANGED kinds
-  /\ CASE e.op = "save" ->
+  /\ strm' = StreamAfter(strm, e)
+  /\ CASE e.op = "ssave" ->
+            /\ mem' = MemAfter(mem, [e EXCEPT !.fmt = "pkl"])
+            /\ UNCHANGED <<fs, held, loaded>>
+            /\ hist' = Append(hist, Rec(e, "Ok", 0, fs, loaded, strm'))
+       [] e.op = "sload" ->
+            /\ loaded' = StreamRead(strm)
+            /\ UNCHANGED <<fs, mem, held>>
+            /\ hist' = Append(hist, Rec(e, "Ok", loaded', fs, loaded', strm'))
+       [] e.op = "sseek" ->
+            /\ UNCHANGED <<fs, mem, held, loaded>>
+            /\ hist' = Append(hist, Rec(e, "Ok", 0, fs, loaded, strm'))
+       [] e.op = "save" ->
             LET r == SaveResult(kinds, fs, mem, e) IN
             /\ fs' = [fs EXCEPT ![e.p] = r.file]
             /\ mem' = MemAfter(mem, e)
             /\ held' = IF e.mode = "kept" THEN held \cup {e.p} ELSE held
             /\ UNCHANGED loaded
-            /\ hist' = Append(hist, Rec(e, r.out, 0, fs', loaded))
+            /\ hist' = Append(hist, Rec(e, r.out, 0, fs', loaded, strm'))
        [] e.op = "load" ->
             LET res == Owner(kinds, fs[e.p]) IN
             /\ loaded' = res
             /\ UNCHANGED <<fs, mem, held>>
-            /\ hist' = Append(hist, Rec(e, "Ok", res, fs, res))
+            /\ hist' = Append(hist, Rec(e, "Ok", res, fs, res, strm'))
        [] e.op = "close" ->
             /\ held' = held \ {e.p}
             /\ UNCHANGED <<fs, mem, loaded>>
-            /\ hist' = Append(hist, Rec(e, "Ok", 0, fs, loaded))
+            /\ hist' = Append(hist, Rec(e, "Ok", 0, fs, loaded, strm'))
 
-Events ==
+FsEvents ==
   {Ev("save", o, 0, p, fmt, ow, mode) : o \in Objs, p \in Paths, fmt \in Fmts, ow \in {0, 1}, mode \in Modes}
   \cup {Ev("save", loaded, 1, p, fmt, ow, mode) : p \in Paths, fmt \in Fmts, ow \in {0, 1}, mode \in Modes}
   \cup {Ev("load", 0, 0, p, fmt, 0, mode) : p \in Paths, fmt \in Fmts, mode \in Modes \ {"kept"}}
   \cup {Ev("close", 0, 0, p, "", 0, "") : p \in Paths}
+StreamEvents ==
+  {Ev("ssave", o, 0, 0, "pkl", ow, "stream") : o \in Objs, ow \in {0, 1}}
+  \cup {Ev("ssave", loaded, 1, 0, "pkl", ow, "stream") : ow \in {0, 1}}
+  \cup {Ev("sload", 0, 0, 0, "pkl", 0, "stream"), Ev("sseek", 0, 0, 0, "pkl", 0, "stream")}
+Events == (IF "fs" \in Ops THEN FsEvents ELSE {}) \cup (IF "stream" \in Ops THEN StreamEvents ELSE {})
 
 Next == Len(hist) < Depth /\ \E e \in Events : Step(e)
 Spec == Init /\ [][Next]_vars
@@ -192,6 +239,28 @@ Spec == Init /\ [][Next]_vars
 (* ------------------------------ properties ------------------------------ *)
 TypeOK == /\ \A p \in Paths : fs[p].fmt \in Fmts \cup {""} /\ fs[p].cells \subseteq (STRING \X Objs)
           /\ loaded \in Objs \cup {0, -1} /\ held \subseteq Paths
+
+\* --- pickle streams, stated over the history only ---
+\* indices of the entries among the first n that satisfy Test
+Idx(n, Test(_)) == SelectSeq([k \in 1..n |-> k], LAMBDA k : Test(hist[k]))
+LastIdx(n, Test(_)) == LET s == Idx(n, Test) IN IF s = <<>> THEN 0 ELSE s[Len(s)]
+\* the objects written to the stream up to entry n: since (and including) the last overwriting save
+Written(n) ==
+  LET t == LastIdx(n, LAMBDA h : h.ev.op = "ssave" /\ h.ev.ow = 1)
+      w == SelectSeq([k \in 1..n |-> k], LAMBDA k : k >= t /\ k >= 1 /\ hist[k].ev.op = "ssave")
+  IN [k \in 1..Len(w) |-> hist[w[k]].ev.o]
+\* the k-th load after the caller's rewind returns the k-th object written: saved back to back, read back in order
+StreamReadsInOrder ==
+  \A i \in 1..Len(hist) : hist[i].ev.op = "sload" =>
+     LET j == LastIdx(i - 1, LAMBDA h : h.ev.op \in {"sseek", "ssave"})
+         k == Len(SelectSeq([m \in 1..i |-> m], LAMBDA m : m > j /\ hist[m].ev.op = "sload"))
+     IN /\ j > 0 /\ hist[j].ev.op = "sseek"
+        /\ k <= Len(Written(i)) /\ hist[i].res = Written(i)[k]
+StreamHoldsWrites == strm.items = Written(Len(hist))
+StreamFrame ==
+  \A i \in 1..Len(hist) :
+     /\ (~IsStream(hist[i].ev.op)) => hist[i].spost = (IF i = 1 THEN [items |-> <<>>, pos |-> 0] ELSE hist[i - 1].spost)
+     /\ IsStream(hist[i].ev.op) => hist[i].post = (IF i = 1 THEN View(kinds, [p \in Paths |-> Absent]) ELSE hist[i - 1].post)
 
 IsSaveOk(h) == h.ev.op = "save" /\ h.out = "Ok"
 \* content id of the last successful save to path p among the first n history entries (0 = none)
